@@ -1229,6 +1229,8 @@ class Transaction(object):
             if fee < 0 or fee == 0 and not self.coinbase:
                 raise TransactionError("Transaction inputs total value must be greater then total value of "
                                        "transaction outputs")
+        elif fee is not None and fee < 0:
+            raise TransactionError("Transaction fee cannot be negative")
         if not version:
             version = b'\x00\x00\x00\x01'
         if isinstance(version, int):
@@ -2160,7 +2162,10 @@ class Transaction(object):
         # self.fee = 0
         if self.input_total:
             self.fee = self.input_total - self.output_total
-            if self.vsize:
+            if self.fee < 0:
+                # Outputs exceed the known input values (values missing or invalid transaction): fee is unknown
+                self.fee = None
+            elif self.vsize:
                 self.fee_per_kb = int((self.fee / float(self.vsize)) * 1000)
 
     def update_inputs(self, input_n=None):
